@@ -239,7 +239,9 @@ def cases(tier, seed):
     #  - adversarial estimators whose predictor is a user torch Module with BatchNorm1d + Dropout
     L2 = 2 if tier == "quick" else 3
     extra = [("eg", {"lp": 1, "nu": "given", "objective": 1}), ("eg", {"lp": 0, "nu": "given", "objective": 1}),
-             ("cr", {"named": 1}), ("advc", {"module": 1}), ("advr", {"module": 1})]
+             ("cr", {"named": 1}), ("advc", {"module": 1}), ("advr", {"module": 1}),
+             # a callback that stops training early: every exit path of fit must hand back the estimator
+             ("advc", {"stop_after": 2}), ("advr", {"stop_after": 3})]
     for xi, (fam, cfg0) in enumerate(extra):
         ops = ADV_OPS if fam.startswith("adv") else STD_OPS
         for gi, (key, hists) in enumerate(sorted(_groups(ops, L2, tier).items())):
